@@ -6,24 +6,25 @@ import (
 )
 
 type shOpts struct {
-	gens      []int
-	nInst     []int
-	factors   []int64
-	maxInts   []int64
-	reserveds []int64
-	shareds   []int64
-	latencies []int64 // ns; jittered
-	whenModes []int   // 0 grant at issue, 1 at return, 2 middle
-	faultP    float64
-	nSteps    []int
-	gapMS     []int64
-	demands   []int64
-	reconfP   float64 // v2 SetShared/SetReserved steps
-	crashP    float64
-	lifeP     float64 // extra Provision/Start/Stop calls in odd orders
-	noMgrP    float64
-	horizon   int64
-	provFailP float64
+	slowCreateP float64 // probability that an instance's CreatePartitions calls take time (v2)
+	gens        []int
+	nInst       []int
+	factors     []int64
+	maxInts     []int64
+	reserveds   []int64
+	shareds     []int64
+	latencies   []int64 // ns; jittered
+	whenModes   []int   // 0 grant at issue, 1 at return, 2 middle
+	faultP      float64
+	nSteps      []int
+	gapMS       []int64
+	demands     []int64
+	reconfP     float64 // v2 SetShared/SetReserved steps
+	crashP      float64
+	lifeP       float64 // extra Provision/Start/Stop calls in odd orders
+	noMgrP      float64
+	horizon     int64
+	provFailP   float64
 }
 
 func defaultShOpts() shOpts {
@@ -32,7 +33,7 @@ func defaultShOpts() shOpts {
 		reserveds: []int64{0, 5, 100}, shareds: []int64{1, 4, 10, 30, 100}, latencies: []int64{0, 1*MS + 7, 40*MS + 13, 700*MS + 3, 2*SEC + 11, 2*SEC + 11, 15*SEC + 3, 17*SEC + 1},
 		whenModes: []int{0, 1, 2}, faultP: 0.15, nSteps: []int{4, 10, 25}, gapMS: []int64{50, 400, 3000},
 		demands: []int64{0, 1, 3, 7, 10, 25, 90, 100, 1000}, reconfP: 0.0, crashP: 0, lifeP: 0.03, noMgrP: 0.05, horizon: 40 * SEC,
-		provFailP: 0.05,
+		provFailP: 0.05, slowCreateP: 0.3,
 	}
 }
 
@@ -69,6 +70,13 @@ func genShared(rng *rand.Rand, name string, o shOpts) *SScenario {
 				ls.Mode = 1 + rng.Intn(2)
 			}
 			in.Leases = append(in.Leases, ls)
+		}
+		// v2: CreatePartitions calls that take their time (the first, at Start, included)
+		if sc.Gen == 2 && chance(rng, o.slowCreateP) {
+			kc := 1 + rng.Intn(4)
+			for j := 0; j < kc; j++ {
+				in.Creates = append(in.Creates, pick(rng, int64(0), int64(0), 3*1000000+17, 400*1000000+5, 2000*1000000+11, 16000*1000000+3))
+			}
 		}
 		sc.Insts = append(sc.Insts, in)
 	}
